@@ -172,8 +172,12 @@ class C06(Prop):
             filler = r.randbytes(n)
             base[4:18] = filler[4:18]
             base[86:n] = filler[86:n]
+        if r.random() < 0.35:
+            base[42:74] = r.randbytes(32)      # whatever the other fields hold, an unknown model is reported, not crashed on
+        if r.random() < 0.2:
+            base[76:n - 4] = r.randbytes(n - 4 - 76)
         base[74:76] = code.to_bytes(2, "big")
-        base[133] = r.choice([0, 1, 1, 2])
+        base[133] = r.choice([0, 1, 1, 2, 0xFF])
         return bytes(base), ("unknown-model", n, code)
 
     async def run_case(self, case, acc, ctx):
